@@ -875,6 +875,208 @@ fn run_tokens(job: &Value) -> Value {
   }
 }
 
+
+// ------------------------------------------------------------------------------------------------
+// syntactic context of a site (for the C09 class predicates): where expression lists and type
+// annotations start in the UNINJECTED text, according to the real parser
+
+#[derive(Default)]
+struct Ctx {
+  expr_lists: Vec<Location>,
+  annots: Vec<Location>,
+}
+
+fn ctx_annot(c: &mut Ctx, a: &annotation::T) {
+  c.annots.push(a.location());
+  match a {
+    annotation::T::Primitive(..) | annotation::T::Generic(..) => {}
+    annotation::T::Id(i) => ctx_id_annot_args(c, i),
+    annotation::T::Fn(f) => {
+      for p in &f.parameters.annotations {
+        ctx_annot(c, p);
+      }
+      ctx_annot(c, &f.return_type);
+    }
+  }
+}
+
+fn ctx_id_annot_args(c: &mut Ctx, i: &annotation::Id) {
+  if let Some(t) = &i.type_arguments {
+    for a in &t.arguments {
+      ctx_annot(c, a);
+    }
+  }
+}
+
+fn ctx_targs(c: &mut Ctx, t: &Option<annotation::TypeArguments>) {
+  if let Some(t) = t {
+    for a in &t.arguments {
+      ctx_annot(c, a);
+    }
+  }
+}
+
+fn ctx_block(c: &mut Ctx, b: &expr::Block<()>) {
+  for s in &b.statements {
+    match s {
+      expr::Statement::Declaration(d) => {
+        if let Some(a) = &d.annotation {
+          ctx_annot(c, a);
+        }
+        ctx_expr(c, &d.assigned_expression);
+      }
+      expr::Statement::Expression(e) => ctx_expr(c, e),
+    }
+  }
+  if let Some(e) = &b.expression {
+    ctx_expr(c, e);
+  }
+}
+
+fn ctx_if(c: &mut Ctx, i: &expr::IfElse<()>) {
+  match i.condition.as_ref() {
+    expr::IfElseCondition::Expression(e) => ctx_expr(c, e),
+    expr::IfElseCondition::Guard(_, e) => ctx_expr(c, e),
+  }
+  ctx_block(c, &i.e1);
+  match i.e2.as_ref() {
+    expr::IfElseOrBlock::IfElse(n) => ctx_if(c, n),
+    expr::IfElseOrBlock::Block(b) => ctx_block(c, b),
+  }
+}
+
+fn ctx_expr(c: &mut Ctx, e: &expr::E<()>) {
+  match e {
+    expr::E::Literal(..) | expr::E::LocalId(..) | expr::E::ClassId(..) => {}
+    expr::E::Tuple(_, l) => {
+      c.expr_lists.push(l.loc);
+      for x in &l.expressions {
+        ctx_expr(c, x);
+      }
+    }
+    expr::E::FieldAccess(f) => {
+      ctx_targs(c, &f.explicit_type_arguments);
+      ctx_expr(c, &f.object);
+    }
+    expr::E::MethodAccess(f) => {
+      ctx_targs(c, &f.explicit_type_arguments);
+      ctx_expr(c, &f.object);
+    }
+    expr::E::Unary(u) => ctx_expr(c, &u.argument),
+    expr::E::Call(call) => {
+      c.expr_lists.push(call.arguments.loc);
+      ctx_expr(c, &call.callee);
+      for x in &call.arguments.expressions {
+        ctx_expr(c, x);
+      }
+    }
+    expr::E::Binary(b) => {
+      ctx_expr(c, &b.e1);
+      ctx_expr(c, &b.e2);
+    }
+    expr::E::IfElse(i) => ctx_if(c, i),
+    expr::E::Match(m) => {
+      ctx_expr(c, &m.matched);
+      for case in &m.cases {
+        ctx_expr(c, &case.body);
+      }
+    }
+    expr::E::Lambda(l) => {
+      for p in &l.parameters.parameters {
+        if let Some(a) = &p.annotation {
+          ctx_annot(c, a);
+        }
+      }
+      ctx_expr(c, &l.body);
+    }
+    expr::E::Block(b) => ctx_block(c, b),
+  }
+}
+
+fn ctx_tparams(c: &mut Ctx, t: &Option<annotation::TypeParameters>) {
+  if let Some(t) = t {
+    for p in &t.parameters {
+      if let Some(b) = &p.bound {
+        c.annots.push(b.location);
+        ctx_id_annot_args(c, b);
+      }
+    }
+  }
+}
+
+fn ctx_member(c: &mut Ctx, m: &source::ClassMemberDeclaration) {
+  ctx_tparams(c, &m.type_parameters);
+  for p in m.parameters.parameters.iter() {
+    ctx_annot(c, &p.annotation);
+  }
+  ctx_annot(c, &m.return_type);
+}
+
+fn ctx_supers(c: &mut Ctx, n: &Option<source::ExtendsOrImplementsNodes>) {
+  if let Some(n) = n {
+    for i in &n.nodes {
+      c.annots.push(i.location);
+      ctx_id_annot_args(c, i);
+    }
+  }
+}
+
+fn ctx_module(m: &Module<()>) -> Ctx {
+  let mut c = Ctx::default();
+  for t in &m.toplevels {
+    match t {
+      Toplevel::Interface(i) => {
+        ctx_tparams(&mut c, &i.type_parameters);
+        ctx_supers(&mut c, &i.extends_or_implements_nodes);
+        for m in &i.members.members {
+          ctx_member(&mut c, m);
+        }
+      }
+      Toplevel::Class(cl) => {
+        ctx_tparams(&mut c, &cl.type_parameters);
+        ctx_supers(&mut c, &cl.extends_or_implements_nodes);
+        match &cl.type_definition {
+          None => {}
+          Some(TypeDefinition::Struct { fields, .. }) => {
+            for f in fields {
+              ctx_annot(&mut c, &f.annotation);
+            }
+          }
+          Some(TypeDefinition::Enum { variants, .. }) => {
+            for v in variants {
+              if let Some(l) = &v.associated_data_types {
+                for a in &l.annotations {
+                  ctx_annot(&mut c, a);
+                }
+              }
+            }
+          }
+        }
+        for m in &cl.members.members {
+          ctx_member(&mut c, &m.decl);
+          ctx_expr(&mut c, &m.body);
+        }
+      }
+    }
+  }
+  c
+}
+
+/// (offsets where an expression list `(` opens, offsets where a type annotation starts) of `text`
+fn context_offsets(text: &str, name: &str) -> (Vec<usize>, Vec<usize>) {
+  catch_unwind(AssertUnwindSafe(|| {
+    let mut heap = Heap::new();
+    let mut es = ErrorSet::new();
+    let mr = mod_ref(&mut heap, name);
+    let m = samlang_parser::parse_source_module_from_text(text, mr, &mut heap, &mut es);
+    let ls = line_starts(text);
+    let off = |p: samlang_ast::Position| ls.get(p.0 as usize).copied().unwrap_or(text.len()) + p.1 as usize;
+    let c = ctx_module(&m);
+    (c.expr_lists.iter().map(|l| off(l.start)).collect(), c.annots.iter().map(|l| off(l.start)).collect())
+  }))
+  .unwrap_or_default()
+}
+
 fn format_once(text: &str, name: &str, width: usize) -> Result<(usize, String, Vec<Value>, Value, Value), String> {
   // -> (syntax errors, formatted text, comments referenced from the AST's comment store, import comment texts)
   catch_unwind(AssertUnwindSafe(|| {
@@ -908,6 +1110,7 @@ fn run_inject(job: &Value) -> Value {
   let toks: Vec<(String, String, usize, usize)> =
     tokens_with_offsets(text).into_iter().filter(|t| !t.0.ends_with("comment")).collect();
   let base_comments = comments_of(text);
+  let (expr_list_opens, annot_starts) = context_offsets(text, name);
   let mut results = Vec::new();
   for site in job["sites"].as_array().unwrap() {
     let off = site[0].as_u64().unwrap() as usize;
@@ -925,6 +1128,24 @@ fn run_inject(job: &Value) -> Value {
     r.insert("site".into(), site.clone());
     r.insert("prev".into(), prev);
     r.insert("next".into(), next);
+    // innermost bracket that is open at the site, and whether it opens an expression list (call arguments, tuple)
+    let mut stack: Vec<&(String, String, usize, usize)> = Vec::new();
+    for t in toks.iter().filter(|t| t.3 <= off) {
+      if t.0 == "operator" {
+        match t.1.as_str() {
+          "(" | "{" | "[" => stack.push(t),
+          ")" | "}" | "]" => {
+            stack.pop();
+          }
+          _ => {}
+        }
+      }
+    }
+    let encl = stack.last();
+    r.insert("encl_open".into(), encl.map(|t| json!(t.1)).unwrap_or(Value::Null));
+    r.insert("encl_expr_list".into(), json!(encl.map(|t| expr_list_opens.contains(&t.2)).unwrap_or(false)));
+    let next_start = toks.iter().find(|t| t.2 >= off).map(|t| t.2);
+    r.insert("next_is_type".into(), json!(next_start.map(|o| annot_starts.contains(&o)).unwrap_or(false)));
     match format_once(&injected, name, width) {
       Err(msg) => {
         r.insert("panic".into(), json!(msg));
@@ -949,6 +1170,14 @@ fn run_inject(job: &Value) -> Value {
           b.sort();
           r.insert("status".into(), json!("ok"));
           r.insert("present".into(), json!(present));
+          // where the comment sits in the output: the tokens around it
+          let out_toks = tokens_with_offsets(&out);
+          if let Some(i) = out_toks.iter().position(|t| t.0.ends_with("comment") && t.1 == marker) {
+            let p = out_toks[..i].iter().rev().find(|t| !t.0.ends_with("comment")).map(|t| json!([t.0, t.1])).unwrap_or(Value::Null);
+            let n = out_toks[i + 1..].iter().find(|t| !t.0.ends_with("comment")).map(|t| json!([t.0, t.1])).unwrap_or(Value::Null);
+            r.insert("out_prev".into(), p);
+            r.insert("out_next".into(), n);
+          }
           r.insert("in_store".into(), json!(in_store));
           r.insert("on_import".into(), json!(on_import));
           r.insert("same_multiset".into(), json!(a == b));
